@@ -19,5 +19,5 @@ CONSTANTS
   CsvOther = 4
   Thaw = 600
   LeaseJusticeQuirk = FALSE
-INVARIANTS B_ErrAgree B_ConformCounters B_ConformChains B_ReloadOpens B_ConformShadowChains B_ConformTxLayer B_OraclesHold CCExists CCResolutions CCLocks CCEngine CCClaim
+INVARIANTS B_ErrAgree B_ConformCounters B_ConformChains B_ReloadOpens B_ConformShadowChains B_ConformTxLayer B_OraclesHold CCExists CCResolutions CCLocks CCEngine CCClaim CCFaults
 CHECK_DEADLOCK TRUE
